@@ -126,7 +126,12 @@ func TestC12Close(t *testing.T) {
 		// from "a tick is almost always being handed over" to "rare ticks"
 		w.hbPeriod = time.Duration(rapid.SampledFrom([]int{1, 5, 20, 100, 500, 2000}).Draw(t, "hb_period_us")) * time.Microsecond
 		w.shortRetry = rapid.IntRange(0, 3).Draw(t, "short_retry") > 0
-		blocked, err := runC12(w)
+		var blocked []string
+		err := watchdog(scenarioLimit, func() error {
+			var e error
+			blocked, e = runC12(w)
+			return e
+		})
 		if n := atomic.SwapInt64(&excludedUDPClose, 0); n > 0 {
 			rec.Class("excluded:new-udp-peer-pending-at-close(known finding)", n)
 		}
